@@ -257,6 +257,18 @@ impl DbValue {
         }
     }
 
+    fn inline_value_bytes(value_index: &DbValueIndex) -> Result<[u8; 8], DbError> {
+        value_index.value().try_into().map_err(|_| {
+            DbError::db(
+                DbErrorType::NotEnoughData,
+                format!(
+                    "Invalid inline value size ({} != 8)",
+                    value_index.value().len()
+                ),
+            )
+        })
+    }
+
     pub(crate) fn load_db_value<D: StorageData>(
         value_index: DbValueIndex,
         storage: &Storage<D>,
@@ -274,18 +286,15 @@ impl DbValue {
                 }
             }
             I64_META_VALUE => {
-                let mut bytes = [0_u8; 8];
-                bytes.copy_from_slice(value_index.value());
+                let bytes = Self::inline_value_bytes(&value_index)?;
                 DbValue::I64(i64::from_le_bytes(bytes))
             }
             U64_META_VALUE => {
-                let mut bytes = [0_u8; 8];
-                bytes.copy_from_slice(value_index.value());
+                let bytes = Self::inline_value_bytes(&value_index)?;
                 DbValue::U64(u64::from_le_bytes(bytes))
             }
             F64_META_VALUE => {
-                let mut bytes = [0_u8; 8];
-                bytes.copy_from_slice(value_index.value());
+                let bytes = Self::inline_value_bytes(&value_index)?;
                 DbValue::F64(DbF64::from(f64::from_le_bytes(bytes)))
             }
             STRING_META_VALUE => {
